@@ -268,3 +268,58 @@ def extra_funcs(repo, pid):
             if nm in m.classes:
                 out += m.classes[nm].all_funcs()
     return out
+
+
+def defaulted_fields(repo):
+    """fields the package fills with a default when they are None:  if X.f is None: X.f = <default>"""
+    out = {}
+    for f in repo.all_funcs():
+        for n in ast.walk(f.node):
+            if isinstance(n, ast.If) and isinstance(n.test, ast.Compare) and len(n.test.ops) == 1 and isinstance(n.test.ops[0], ast.Is) and \
+                    isinstance(n.test.comparators[0], ast.Constant) and n.test.comparators[0].value is None and isinstance(n.test.left, ast.Attribute):
+                tgt = ast.unparse(n.test.left)
+                if any(isinstance(s, ast.Assign) and ast.unparse(s.targets[0]) == tgt for s in n.body):
+                    out.setdefault(n.test.left.attr, []).append((f, n))
+    return out
+
+
+def sentinel_rule(ctx, rule, why):
+    """a field that the package fills with a configured default when it is None must BE None when the input does not give it:
+    the loader reads it with .get('<field>') / .get('<field>', None), not with another default (which would win over the
+    configured one)"""
+    from .rules.common import site
+    repo = ctx.repo
+    dfl = defaulted_fields(repo)
+    n = 0
+    for f in repo.all_funcs():
+        for c in ast.walk(f.node):
+            if isinstance(c, ast.Call) and isinstance(c.func, ast.Attribute) and c.func.attr in ('get', 'pop') and len(c.args) == 2 and \
+                    isinstance(c.args[0], ast.Constant) and c.args[0].value in dfl:
+                st = c
+                while not isinstance(st, ast.stmt):
+                    st = st._parent
+                # only loader stores into the same-named field
+                if not (isinstance(st, ast.Assign) and isinstance(st.targets[0], ast.Attribute) and
+                        st.targets[0].attr.lstrip('_') == c.args[0].value):
+                    continue
+                n += 1
+                d = c.args[1]
+                ok = isinstance(d, ast.Constant) and d.value is None
+                g, site_n = dfl[c.args[0].value][0]
+                ctx.check(rule, f'{site(f, c)} {c.args[0].value}', ok, f'{f.qual}|sentinel|{c.args[0].value}',
+                          f"{ast.unparse(c)[:60]}: a missing '{c.args[0].value}' becomes {ast.unparse(d)} instead of None, but {g.qual} fills the "
+                          f'configured default only when the field is None: {why}')
+    for fld, sites_ in sorted(dfl.items()):
+        g, node = sites_[0]
+        # every loader of a defaulted field that uses .get(field) without default is an instance too
+        for f in repo.all_funcs():
+            for c in ast.walk(f.node):
+                if isinstance(c, ast.Call) and isinstance(c.func, ast.Attribute) and c.func.attr == 'get' and len(c.args) == 1 and \
+                        isinstance(c.args[0], ast.Constant) and c.args[0].value == fld:
+                    st = c
+                    while not isinstance(st, ast.stmt):
+                        st = st._parent
+                    if isinstance(st, ast.Assign) and isinstance(st.targets[0], ast.Attribute) and st.targets[0].attr.lstrip('_') == fld:
+                        n += 1
+                        ctx.ok(rule, f'{site(f, c)} {fld}', 'absent -> None')
+    return n
